@@ -1,5 +1,6 @@
 from vpdrv import Job
 JOBS = [
+    Job('bfd.s2', 'C06/buffered_fd.cpp', 'h_bfd', 'B', defs={'NSTEP': 2}, reach=['bfd'], timeout=900, clause='buffered fd: 2 symbolic steps (same dimensions)'),
     Job('bfd.s3', 'C06/buffered_fd.cpp', 'h_bfd', 'B', defs={'NSTEP': 3}, reach=['bfd'], timeout=1700, clause='buffered fd: 3 symbolic steps over {send 1-3 bytes, enable, writable, readable, peer writes 1-3 bytes, peer close}; kernel accepts/delivers arbitrary prefixes'),
     Job('bfd.s4', 'C06/buffered_fd.cpp', 'h_bfd', 'B', defs={'NSTEP': 4}, reach=['bfd'], timeout=3400, tier='thorough', clause='same with 4 steps'),
 ]
